@@ -285,6 +285,19 @@ func (vm *VM) runPath(entry *ssa.Function, prefix []int32) {
 		}()
 		vm.callFunction(entry, nil, nil)
 	}()
+	// a concrete witness of this path for the evidence samples (first few paths only)
+	sample := ""
+	if vm.cfg.Concrete == nil && reason != "engine-error" && reason != "engine-crash" && (P.Oblig > 0 || len(P.reach) > 0) {
+		vm.ex.mu.Lock()
+		need := len(vm.ex.Samples) < 6
+		vm.ex.mu.Unlock()
+		if need {
+			if res, vals := vm.solver.ModelWith(tTrue, vm.nondetTerms()); res == Sat {
+				v := &Violation{Case: vm.caseFromModel(vals)}
+				sample = caseSummary(v)
+			}
+		}
+	}
 	// restore heap
 	for i := len(vm.undo) - 1; i >= 0; i-- {
 		vm.undo[i].o.Val = vm.undo[i].old
@@ -326,7 +339,11 @@ func (vm *VM) runPath(entry *ssa.Function, prefix []int32) {
 		ex.Unknowns++
 	}
 	if len(ex.Samples) < 6 && (P.Oblig > 0 || len(P.reach) > 0) {
-		ex.Samples = append(ex.Samples, vm.describePath(reason))
+		d := vm.describePath(reason)
+		if sample != "" {
+			d += " witness-inputs=[" + sample + "]"
+		}
+		ex.Samples = append(ex.Samples, d)
 	}
 	if ex.cfg.MaxPaths > 0 && ex.Paths >= ex.cfg.MaxPaths && !ex.stopped {
 		ex.Truncated = true
